@@ -1,8 +1,11 @@
 #!/bin/bash
 # usage: seedrun.sh <seed-id> <property> [tier]
 # Applies /verif/seeded/<seed-id>/patch.diff to /repo, runs the property's check, undoes the change.
+# The property's evidence file is put back afterwards: committed evidence must describe /repo itself.
 sid=$1; prop=$2; tier=${3:-quick}
+cp /verif/evidence/$prop.json /tmp/evidence_keep_$prop.json 2>/dev/null
 cd /repo && git apply /verif/seeded/$sid/patch.diff || exit 3
 echo "== $sid applied to /repo; check $prop $tier"
 (cd /verif && timeout 1500 ./bin/gosym.seed check $prop $tier 2>&1 | cut -c1-300 | grep -v '^KNOWN-FINDING' | tail -n 5; echo "check exit=${PIPESTATUS[0]}")
 git -C /repo checkout -- . ; git -C /repo status --short | head -3
+cp /tmp/evidence_keep_$prop.json /verif/evidence/$prop.json 2>/dev/null; rm -f /tmp/evidence_keep_$prop.json
